@@ -166,3 +166,17 @@ def d100_repartition_of_sorted_empty_frame(case, rec):
             if any(t["op"] in ("sort_values", "set_index") for t in src) and hasattr(pv.get(s["in"][0]), "__len__") and len(pv[s["in"][0]]) == 0:
                 return True
     return False
+
+
+def d103_combine_first_empty_partition_column_order(case, rec):
+    """C07: combine_first where `other` has additional columns: an EMPTY partition orders the union of the columns differently from the
+    non-empty ones (pandas), so its labels differ from the declared ones in ORDER only."""
+    if rec.get("kind") != "partition-labels" or not isinstance(case, dict) or "steps" not in case:
+        return False
+    step = next((s for s in case["steps"] if s["id"] == rec.get("value")), None)
+    if step is None or step["op"] != "combine_first":
+        return False
+    import re
+
+    m = re.findall(r"\[([^\]]*)\]", rec.get("detail", ""))
+    return len(m) >= 2 and sorted(m[0].split(", ")) == sorted(m[1].split(", ")) and m[0] != m[1]
